@@ -275,7 +275,6 @@ inline void Exec::new_add(int ki, int ni, bool allow_bad) {
     a->br = MB.rows; a->bc = MB.cols; a->ar = MA.rows; a->ac = MA.cols;
     // ---- optional invalid twist
     Expect ex = XP_OK; const char *why = "valid"; unsigned cz = C_USAGE;
-    bool unknown_rollback_region = false;
     bool zero_a = false;
     int hist_sub_j = -1, hist_sub_q = -1;      // clone history: the clone uses its own (undeleted) twin of a deleted handle
     if (allow_bad && c.chance(1, 4)) {
@@ -292,9 +291,7 @@ inline void Exec::new_add(int ki, int ni, bool allow_bad) {
             // "a copy of the parameter will continue to exist internally until the last reference has been released":
             // a deleted handle this vnacal_new_t still references is found in its own table -- either outcome
             for (size_t q = 0; q < K.params.size(); q++) if (K.params[q].deleted && K.params[q].h == a->raw[j] && N.registered.count((int)q)) { ex = XP_EITHER; why = "deleted-handle-still-referenced"; hist_sub_j = (int)j; hist_sub_q = (int)q; }
-            // open finding rejected-standard-not-rolled-back: parameters of a REJECTED standard stay in the table too
-            for (size_t q = 0; q < K.params.size(); q++) if (ex == XP_FAIL && K.params[q].deleted && K.params[q].h == a->raw[j] && N.stale.count((int)q)) { ex = XP_EITHER; why = "deleted-handle-left-by-rejected-standard"; excl_unknown_rollback = true; hist_sub_j = (int)j; hist_sub_q = (int)q; }
-            for (size_t q = 0; q < j; q++) if (a->pidx[q] >= 0 && !N.registered.count(a->pidx[q]) && K.params[a->pidx[q]].kind >= ParamRec::UNKNOWN) unknown_rollback_region = true;
+            // (a deleted handle that only a REJECTED standard referenced is refused: the rejection rolls its registrations back)
             break;
         }
         case 6: {
@@ -310,7 +307,6 @@ inline void Exec::new_add(int ki, int ni, bool allow_bad) {
         default: zero_a = true; ex = XP_FAIL; cz = C_MATH; why = "singular-a"; break;     // vnaerr(3): "'a' matrix is singular" is a MATH error
         }
     }
-    if (unknown_rollback_region) { excl_unknown_rollback = true; if (!no_exclude) return; }
     // T16/U16 with error modelling: "the complete s-parameter matrix for each calibration standard must be given"
     bool full_s = (int)st.ports.size() == P;
     if (ex == XP_OK && vm::is_16(sc.type) && N.m_error && !full_s) { ex = XP_EITHER; why = "t16-partial-s-with-m-error"; }
@@ -335,7 +331,7 @@ inline void Exec::new_add(int ki, int ni, bool allow_bad) {
             return do_add(p, *a, hh);
         });
         N.hist_desc.push_back(std::string(fn) + " " + st.describe());
-    } else { N.refused++; for (int pi : a->pidx) for (int q = pi; q >= 0; q = K.params[q].other) N.stale.insert(q); }
+    } else N.refused++;
 }
 
 // a reflect standard whose reflection coefficient is an unknown (or correlated) parameter
@@ -382,14 +378,15 @@ inline void Exec::new_add_unknown(int ki, int ni) {
     { sc.ab = a->ab; RunnerGuard rg(c, sc, nullptr, nullptr); rg.run.measure(st, st.Sfull, MA, MB); sc.ab = false; }
     a->br = MB.rows; a->bc = MB.cols; a->ar = MA.rows; a->ac = MA.cols;
     Expect ex = XP_OK; const char *why = "valid-with-unknown";
+    int hist_sub_q = -1;
     if (dbl && c.chance(1, 4)) {
-        // OPEN FINDING unknown-not-rolled-back: a standard rejected for a later S cell leaves the unknown
-        // parameter of an earlier cell registered in the vnacal_new_t.  Excluded by construction.
-        excl_unknown_rollback = true;
-        if (no_exclude) { a->pidx[1] = -1; a->raw[1] = bad_handle(K, why); ex = XP_FAIL; }
+        // the standard is rejected for its SECOND cell after the new unknown of the first cell was looked up: the rejection
+        // must leave no trace of the unknown in the vnacal_new_t (the clone history judges)
+        a->pidx[1] = -1; a->raw[1] = bad_handle(K, why); ex = XP_FAIL;
+        for (size_t q = 0; q < K.params.size(); q++) if (K.params[q].deleted && K.params[q].h == a->raw[1] && N.registered.count((int)q)) { ex = XP_EITHER; why = "deleted-handle-still-referenced"; hist_sub_q = (int)q; }
     }
     bool full_s = (int)st.ports.size() == sc.P;
-    if (ex == XP_OK && vm::is_16(sc.type) && N.m_error && !full_s) { ex = XP_EITHER; why = "t16-partial-s-with-m-error"; if (!no_exclude) { excl_unknown_rollback = true; return; } }
+    if (ex == XP_OK && vm::is_16(sc.type) && N.m_error && !full_s) { ex = XP_EITHER; why = "t16-partial-s-with-m-error"; }
     a->B = std::make_shared<PMat>(a->br, a->bc, N.F); a->B->fill(MB);
     if (a->ab) { a->A = std::make_shared<PMat>(a->ar, a->ac, N.F); a->A->fill(MA); }
     std::vector<int> h; for (size_t j = 0; j < a->pidx.size(); j++) h.push_back(a->pidx[j] >= 0 ? K.params[a->pidx[j]].h : a->raw[j]);
@@ -402,12 +399,13 @@ inline void Exec::new_add_unknown(int ki, int ni) {
         if (!full_s) N.partial_s = true;
         for (int pi : a->pidx) for (int q = pi; q >= 0; q = K.params[q].other) N.registered.insert(q);     // a correlated parameter registers its correlate too
         std::vector<int> pidx = a->pidx, raw = a->raw;
+        if (hist_sub_q >= 0) pidx[1] = hist_sub_q;
         N.hist.push_back([a, pidx, raw](vnacal_new_t *p, const std::function<int(int)> &map) {
             std::vector<int> hh; for (size_t j = 0; j < pidx.size(); j++) hh.push_back(pidx[j] >= 0 ? map(pidx[j]) : raw[j]);
             return do_add(p, *a, hh);
         });
         N.hist_desc.push_back(std::string(fn) + " (unknown) " + st.describe());
-    } else { N.refused++; for (int pi : a->pidx) for (int q = pi; q >= 0; q = K.params[q].other) N.stale.insert(q); }
+    } else N.refused++;
 }
 
 inline void Exec::new_solve(int ki, int ni) {
